@@ -8,6 +8,7 @@ CONSTANTS
   PerSegmentStats = FALSE
   Queries <- MCQueries
   Table <- MCTable
+  MCLeaderFieldNorm = FALSE
 INVARIANT StatsSegmentationIndependent
 INVARIANT ScoreSegmentationIndependent
 INVARIANT ScoreSegmentationIndependentEvenWithDeletes
